@@ -105,6 +105,58 @@ pub struct OrderedFreqs<W> {
     entries: Vec<(usize, W)>,
 }
 
+/// The read-only part of the `HashMap` API, so that code written against the frequency map keeps compiling
+/// (and keeps enumerating in the order the harness chose) when this seam is compiled in.
+impl<W> OrderedFreqs<W> {
+    pub fn len(&self) -> usize {
+        self.entries.len()
+    }
+    pub fn is_empty(&self) -> bool {
+        self.entries.is_empty()
+    }
+    pub fn iter(&self) -> impl Iterator<Item = (&usize, &W)> + '_ {
+        self.entries.iter().map(|(k, w)| (k, w))
+    }
+    pub fn keys(&self) -> impl Iterator<Item = &usize> + '_ {
+        self.entries.iter().map(|(k, _)| k)
+    }
+    pub fn values(&self) -> impl Iterator<Item = &W> + '_ {
+        self.entries.iter().map(|(_, w)| w)
+    }
+    pub fn get(&self, key: &usize) -> Option<&W> {
+        self.entries.iter().find(|(k, _)| k == key).map(|(_, w)| w)
+    }
+    pub fn contains_key(&self, key: &usize) -> bool {
+        self.entries.iter().any(|(k, _)| k == key)
+    }
+}
+
+impl<W> std::ops::Index<&usize> for OrderedFreqs<W> {
+    type Output = W;
+    fn index(&self, key: &usize) -> &W {
+        self.get(key).expect("no entry found for key")
+    }
+}
+
+impl<W> IntoIterator for OrderedFreqs<W> {
+    type Item = (usize, W);
+    type IntoIter = std::vec::IntoIter<(usize, W)>;
+    fn into_iter(self) -> Self::IntoIter {
+        self.entries.into_iter()
+    }
+}
+
+impl<'a, W> IntoIterator for &'a OrderedFreqs<W> {
+    type Item = (&'a usize, &'a W);
+    type IntoIter = std::iter::Map<std::slice::Iter<'a, (usize, W)>, fn(&'a (usize, W)) -> (&'a usize, &'a W)>;
+    fn into_iter(self) -> Self::IntoIter {
+        fn split<W>(e: &(usize, W)) -> (&usize, &W) {
+            (&e.0, &e.1)
+        }
+        self.entries.iter().map(split::<W> as fn(&'a (usize, W)) -> (&'a usize, &'a W))
+    }
+}
+
 // `minimum_redundancy::Weight` is not nameable from outside its crate, so the two weight types the
 // builders use are spelled out.
 macro_rules! impl_ordered_freqs {
